@@ -1,0 +1,164 @@
+//go:build verif
+
+// Contracts for the verification machinery in /verif (comment-only; never compiled into a binary).
+// Property C03: quota admission never lets usage pass the quota's limit.
+
+package elasticquota
+
+//@ uses pkg/scheduler/plugins/elasticquota/core
+
+// ---------- the limit a quota is checked against ----------
+
+// the list usage is compared with: the runtime quota when runtime quota is on, else the max
+//@ spec func limitOf(g *Plugin, q *core.QuotaInfo) corev1.ResourceList = g.pluginArgs.EnableRuntimeQuota ? q.CalculateInfo.Runtime : q.CalculateInfo.Max
+//@ spec func sameAs(m corev1.ResourceList, src corev1.ResourceList) bool = forall n corev1.ResourceName :: {has(m, n)} {val(m, n)} has(m, n) == has(src, n) && val(m, n) == val(src, n)
+
+//@ func (*Plugin).getQuotaInfoUsedLimit [C03]
+//@   requires g != nil && g.pluginArgs != nil && quotaInfo != nil
+//@   ensures #runtime: g.pluginArgs.EnableRuntimeQuota ==> sameAs(result, quotaInfo.CalculateInfo.Runtime)
+//@   ensures #max: !g.pluginArgs.EnableRuntimeQuota ==> sameAs(result, quotaInfo.CalculateInfo.Max)
+//@   ensures #nil: (result == nil) == (limitOf(g, quotaInfo) == nil)
+//@   ensures #fresh: result != nil ==> fresh(result)
+// FINDING F16 (#declares-max is kept failing on purpose; it is the only failing clause of C03): "in every dimension the
+// quota declares" needs the limit to have an entry for every dimension of the quota's max (quotav1.LessThanOrEqual skips
+// keys the limit lacks). True for the max; false for the runtime quota. Reachable input (findings/F16, real code):
+// EnableRuntimeQuota=true (the default), quota "koordinator-default-quota" (or the system quota) with max
+// {cpu:10, memory:20}: it has no node in the runtime calculator tree, so CalculateInfo.Runtime stays {} for ever; a pod
+// requesting {cpu:100, memory:200} gets Success from PreFilter and after Reserve used = {cpu:100, memory:200} > max.
+// PreFilter's #declared clauses below are proved FROM this clause (callers assume a callee's contract).
+//@   ensures #declares-max: forall n corev1.ResourceName :: {has(result, n)} has(quotaInfo.CalculateInfo.Max, n) ==> has(result, n)
+//@   modifies nothing
+
+// ---------- status codes ----------
+
+//@ spec func codeOf(s *fwktype.Status) fwktype.Code = s == nil ? fwktype.Success : s.code
+
+// ---------- ancestor walk ----------
+
+// onChain(mgr, c, a): quota name a is visited by the walk that starts at c and follows ParentName up to (excluding)
+// the root. onChain is an uninterpreted ghost relation; chainDef says that it unfolds along the manager's quotaInfoMap.
+// The postconditions hold for EVERY relation with that unfolding (chainDef is a hypothesis of the clause, not a
+// precondition), in particular for the real "is visited" relation. Termination of the walk is not proved.
+//@ spec func onChain(mgr *core.GroupQuotaManager, c string, a string) bool
+//@ spec func chainDef(mgr *core.GroupQuotaManager) bool = forall c string, a string :: {onChain(mgr, c, a)} onChain(mgr, c, a) <==> (c != extension.RootQuotaName && (a == c || (mgr.quotaInfoMap[c] != nil && onChain(mgr, mgr.quotaInfoMap[c].ParentName, a))))
+
+// usage of quota q plus the request stays within q's limit on the dimensions both the request and the limit declare
+//@ spec func fitsAt(g *Plugin, q *core.QuotaInfo, req corev1.ResourceList) bool = forall n corev1.ResourceName :: has(req, n) && has(limitOf(g, q), n) ==> val(q.CalculateInfo.Used, n) + val(req, n) <= val(limitOf(g, q), n)
+
+//@ func (*Plugin).checkQuotaRecursive [C03]
+//@   requires g != nil && g.pluginArgs != nil && mgr != nil
+//@   ensures #nonnil: result != nil
+//@   ensures #success: chainDef(mgr) && codeOf(result) == fwktype.Success ==> (forall a string :: onChain(mgr, curQuotaName, a) ==> mgr.quotaInfoMap[a] != nil && fitsAt(g, mgr.quotaInfoMap[a], podRequest))
+//@   ensures #reject: chainDef(mgr) && codeOf(result) == fwktype.Unschedulable ==> (exists a string :: onChain(mgr, curQuotaName, a) && mgr.quotaInfoMap[a] != nil && !fitsAt(g, mgr.quotaInfoMap[a], podRequest))
+//@   ensures #error: chainDef(mgr) && codeOf(result) != fwktype.Success && codeOf(result) != fwktype.Unschedulable ==> codeOf(result) == fwktype.Error && (exists a string :: onChain(mgr, curQuotaName, a) && mgr.quotaInfoMap[a] == nil)
+//@   modifies nothing
+
+// Message formatting only (map range + append + sort.Slice on a local string slice). ASSUMED, not verified: the frame
+// obligation on the string-slice element heap needs row extensionality after the append loop (solver timeout).
+//@ func printResourceList [C03]
+//@   modifies nothing
+//@   option trusted
+
+// ---------- which quota a pod is checked against ----------
+
+// The pod -> (quota name, tree id) association is read from the quota lister / informer index, the feature gate and
+// g.quotaToTreeMap. ASSUMED, not verified: during one plugin call it is a fixed function of the plugin and the pod
+// (quotaNameOf / treeIDOf), and looking it up changes nothing.
+//@ spec func quotaNameOf(g *Plugin, pod *corev1.Pod) string
+//@ spec func treeIDOf(g *Plugin, pod *corev1.Pod) string
+//@ func (*Plugin).getPodAssociateQuotaNameAndTreeID [C03]
+//@   ensures result0 == quotaNameOf(g, pod) && result1 == treeIDOf(g, pod)
+//@   modifies nothing
+//@   option trusted
+
+// the manager GetGroupQuotaManagerForTree hands out for the pod's tree
+//@ spec func mgrOf(g *Plugin, pod *corev1.Pod) *core.GroupQuotaManager = (!k8sfeature.DefaultFeatureGate.Enabled(features.MultiQuotaTree) || treeIDOf(g, pod) == "") ? g.groupQuotaManager : g.groupQuotaManagersForQuotaTree[treeIDOf(g, pod)]
+
+// the quota the pod is admitted against (nil when the manager does not know the name)
+//@ spec func quotaOf(g *Plugin, pod *corev1.Pod) *core.QuotaInfo = mgrOf(g, pod).quotaInfoMap[quotaNameOf(g, pod)]
+
+// ---------- admission (PreFilter) ----------
+
+// the pod's request masked by the dimensions the quota's max declares: what admission adds and what Reserve charges
+//@ spec func mReq(q *core.QuotaInfo, pod *corev1.Pod, n corev1.ResourceName) real = has(q.CalculateInfo.Max, n) ? g_podReq(pod, core.gateOverhead(), n) : 0
+//@ spec func mHas(q *core.QuotaInfo, pod *corev1.Pod, n corev1.ResourceName) bool = has(q.CalculateInfo.Max, n) && g_podReqHas(pod, core.gateOverhead(), n)
+
+// used + masked request <= limit on every dimension the limit declares (and that used or the request mention)
+//@ spec func admitOK(g *Plugin, q *core.QuotaInfo, pod *corev1.Pod) bool = forall n corev1.ResourceName :: has(limitOf(g, q), n) && (has(q.CalculateInfo.Used, n) || mHas(q, pod, n)) ==> val(q.CalculateInfo.Used, n) + mReq(q, pod, n) <= val(limitOf(g, q), n)
+// non-preemptible used + masked request <= min on every dimension min declares
+//@ spec func npOK(q *core.QuotaInfo, pod *corev1.Pod) bool = forall n corev1.ResourceName :: has(q.CalculateInfo.Min, n) && (has(q.CalculateInfo.NonPreemptibleUsed, n) || mHas(q, pod, n)) ==> val(q.CalculateInfo.NonPreemptibleUsed, n) + mReq(q, pod, n) <= val(q.CalculateInfo.Min, n)
+// "in every dimension the quota declares": on every dimension of the quota's max that the pod requests, the limit
+// has an entry and used + request stays within it
+//@ spec func declaredOK(g *Plugin, q *core.QuotaInfo, pod *corev1.Pod) bool = forall n corev1.ResourceName :: mHas(q, pod, n) ==> has(limitOf(g, q), n) && val(q.CalculateInfo.Used, n) + mReq(q, pod, n) <= val(limitOf(g, q), n)
+// ancestor a's usage plus the pod's request (masked by the dimensions of its own quota q) stays within a's limit
+//@ spec func fitsReq(g *Plugin, a *core.QuotaInfo, q *core.QuotaInfo, pod *corev1.Pod) bool = forall n corev1.ResourceName :: mHas(q, pod, n) && has(limitOf(g, a), n) ==> val(a.CalculateInfo.Used, n) + mReq(q, pod, n) <= val(limitOf(g, a), n)
+//@ spec func maskedReq(r corev1.ResourceList, q *core.QuotaInfo, pod *corev1.Pod) bool = forall n corev1.ResourceName :: {has(r, n)} {val(r, n)} has(r, n) == mHas(q, pod, n) && val(r, n) == mReq(q, pod, n)
+
+// snapshotPostFilterState is deliberately left WITHOUT a contract (it is inlined into PreFilter, whose #snapshot assert
+// states what it builds): a contract with `modifies nothing` that returns a fresh struct makes the engine frame the
+// fresh object's map-typed fields to nil at the call site, which silently emptied the limit in PreFilter.
+//@ func (*Plugin).PreFilter [C03]
+//@   requires g != nil && g.pluginArgs != nil && pod != nil
+//@   ensures #status: result1 != nil && result0 == nil
+//@   ensures #skip: quotaNameOf(g, pod) == "" ==> codeOf(result1) == fwktype.Skip
+//@   ensures #missing: quotaNameOf(g, pod) != "" && (mgrOf(g, pod) == nil || quotaOf(g, pod) == nil) ==> codeOf(result1) == fwktype.Error
+//@   ensures #admit: codeOf(result1) == fwktype.Success ==> quotaNameOf(g, pod) != "" && mgrOf(g, pod) != nil && quotaOf(g, pod) != nil && admitOK(g, quotaOf(g, pod), pod) && (extension.IsPodNonPreemptible(pod) ==> npOK(quotaOf(g, pod), pod))
+//@   ensures #declared: codeOf(result1) == fwktype.Success ==> declaredOK(g, quotaOf(g, pod), pod)
+//@   ensures #admit-parents: codeOf(result1) == fwktype.Success && g.pluginArgs.EnableCheckParentQuota && chainDef(mgrOf(g, pod)) ==> (forall a string :: onChain(mgrOf(g, pod), quotaOf(g, pod).ParentName, a) ==> mgrOf(g, pod).quotaInfoMap[a] != nil && fitsReq(g, mgrOf(g, pod).quotaInfoMap[a], quotaOf(g, pod), pod))
+//@   ensures #reject: codeOf(result1) == fwktype.Unschedulable ==> quotaOf(g, pod) != nil && (!admitOK(g, quotaOf(g, pod), pod) || (extension.IsPodNonPreemptible(pod) && !npOK(quotaOf(g, pod), pod)) || (calls("CheckPod") > 0 && calls("checkQuotaRecursive") == 0) || (g.pluginArgs.EnableCheckParentQuota && calls("checkQuotaRecursive") == 1 && (chainDef(mgrOf(g, pod)) ==> (exists a string :: onChain(mgrOf(g, pod), quotaOf(g, pod).ParentName, a) && mgrOf(g, pod).quotaInfoMap[a] != nil && !fitsReq(g, mgrOf(g, pod).quotaInfoMap[a], quotaOf(g, pod), pod)))))
+//@   assert before call LessThanOrEqual#1: #snapshot: quotaInfo != nil && quotaInfo == mgr.quotaInfoMap[quotaName] && state != nil && state.quotaInfo == quotaInfo && sameAs(state.used, quotaInfo.CalculateInfo.Used) && sameAs(state.nonPreemptibleUsed, quotaInfo.CalculateInfo.NonPreemptibleUsed) && sameAs(state.usedLimit, limitOf(g, quotaInfo))
+//@   assert before call LessThanOrEqual#1: #masked: maskedReq(podRequest, quotaInfo, pod)
+//@   assert before call NewStatus: #admit: $arg0 == fwktype.Success ==> quotaInfo != nil && admitOK(g, quotaInfo, pod) && (extension.IsPodNonPreemptible(pod) ==> npOK(quotaInfo, pod)) && !g.pluginArgs.EnableCheckParentQuota
+//@   assert before call checkQuotaRecursive: #delegate: $arg0 == mgr && $arg1 == quotaInfo.ParentName && maskedReq($arg3, quotaInfo, pod) && admitOK(g, quotaInfo, pod) && (extension.IsPodNonPreemptible(pod) ==> npOK(quotaInfo, pod))
+//@   assert before call LessThanOrEqual#1: #limit-declares-max: forall n corev1.ResourceName :: {has(limitOf(g, quotaInfo), n)} has(quotaInfo.CalculateInfo.Max, n) ==> has(limitOf(g, quotaInfo), n)
+//@   assert before call NewStatus: #declared: $arg0 == fwktype.Success ==> declaredOK(g, quotaInfo, pod)
+//@   assert before call checkQuotaRecursive: #declared-delegate: declaredOK(g, quotaInfo, pod)
+//@   assert before call NewStatus: #reject: $arg0 == fwktype.Unschedulable ==> quotaInfo != nil && (!admitOK(g, quotaInfo, pod) || (extension.IsPodNonPreemptible(pod) && !npOK(quotaInfo, pod)) || (calls("CheckPod") > 0 && err != nil))
+//@   loop 1 invariant 0 <= $i && calls("CheckPod") == $i
+
+// ---------- preemption simulation on the snapshot (AddPod / RemovePod) ----------
+
+// every stored snapshot that is not a "skip" marker was built by snapshotPostFilterState from a non-nil quota
+//@ spec func statesOK() bool = forall s *PostFilterState :: {s.quotaInfo} s != nil && !s.skip ==> s.quotaInfo != nil
+
+//@ func (*Plugin).AddPod [C03]
+//@   requires g != nil && statesOK() && podInfoToAdd.GetPod() != nil
+//@   ensures #codes: result != nil && (codeOf(result) == fwktype.Success || codeOf(result) == fwktype.Error)
+//@   ensures #skip-untouched: forall s *PostFilterState :: old(s.skip) ==> s.used == old(s.used)
+//@   ensures #error-untouched: codeOf(result) != fwktype.Success ==> (forall s *PostFilterState :: s.used == old(s.used))
+//@   ensures #one: forall s *PostFilterState, t *PostFilterState :: s != t ==> s.used == old(s.used) || t.used == old(t.used)
+//@   assert before call NewStatus: #added: $arg0 == fwktype.Success && !postFilterState.skip && has(postFilterState.quotaInfo.PodCache, core.podKey(podInfoToAdd.GetPod())) ==> (forall s *PostFilterState, n corev1.ResourceName :: s == postFilterState ==> val(s.used, n) == old(val(s.used, n)) + mReq(s.quotaInfo, podInfoToAdd.GetPod(), n) && has(s.used, n) == (old(has(s.used, n)) || mHas(s.quotaInfo, podInfoToAdd.GetPod(), n)))
+//@   assert before call NewStatus: #foreign: $arg0 == fwktype.Success && !postFilterState.skip && !has(postFilterState.quotaInfo.PodCache, core.podKey(podInfoToAdd.GetPod())) ==> (forall s *PostFilterState :: s == postFilterState ==> s.used == old(s.used))
+//@   modifies all(PostFilterState).used
+//@   option inline getPostFilterState
+
+//@ func (*Plugin).RemovePod [C03]
+//@   requires g != nil && statesOK() && podInfoToRemove.GetPod() != nil
+//@   ensures #codes: result != nil && (codeOf(result) == fwktype.Success || codeOf(result) == fwktype.Error)
+//@   ensures #skip-untouched: forall s *PostFilterState :: old(s.skip) ==> s.used == old(s.used)
+//@   ensures #error-untouched: codeOf(result) != fwktype.Success ==> (forall s *PostFilterState :: s.used == old(s.used))
+//@   ensures #one: forall s *PostFilterState, t *PostFilterState :: s != t ==> s.used == old(s.used) || t.used == old(t.used)
+//@   assert before call NewStatus: #removed: $arg0 == fwktype.Success && !postFilterState.skip && has(postFilterState.quotaInfo.PodCache, core.podKey(podInfoToRemove.GetPod())) ==> (forall s *PostFilterState, n corev1.ResourceName :: s == postFilterState ==> val(s.used, n) == max0(old(val(s.used, n)) - mReq(s.quotaInfo, podInfoToRemove.GetPod(), n)) && has(s.used, n) == (old(has(s.used, n)) || mHas(s.quotaInfo, podInfoToRemove.GetPod(), n)))
+//@   assert before call NewStatus: #foreign: $arg0 == fwktype.Success && !postFilterState.skip && !has(postFilterState.quotaInfo.PodCache, core.podKey(podInfoToRemove.GetPod())) ==> (forall s *PostFilterState :: s == postFilterState ==> s.used == old(s.used))
+//@   modifies all(PostFilterState).used
+//@   option inline getPostFilterState
+
+// ---------- Reserve / Unreserve ----------
+
+// every quota manager the plugin can hand out is well formed (core: quotaInfoMap and pod caches allocated)
+//@ spec func mgrsOK(g *Plugin) bool = (g.groupQuotaManager != nil ==> core.quotasOK(g.groupQuotaManager)) && (forall t string :: {g.groupQuotaManagersForQuotaTree[t]} g.groupQuotaManagersForQuotaTree[t] != nil ==> core.quotasOK(g.groupQuotaManagersForQuotaTree[t]))
+
+//@ func (*Plugin).Reserve [C03]
+//@   requires g != nil && p != nil && mgrsOK(g)
+//@   assert before call ReservePod: #charge: $recv == mgrOf(g, p) && $arg0 == quotaNameOf(g, p) && $arg1 == p
+//@   ensures #exactlyonce: quotaNameOf(g, p) != "" && old(mgrOf(g, p)) != nil ==> calls("ReservePod") == 1 && codeOf(result) == fwktype.Success
+//@   ensures #noquota: quotaNameOf(g, p) == "" ==> calls("ReservePod") == 0 && codeOf(result) == fwktype.Success
+//@   ensures #nomgr: quotaNameOf(g, p) != "" && old(mgrOf(g, p)) == nil ==> calls("ReservePod") == 0 && codeOf(result) == fwktype.Error
+//@   ensures #never: result != nil && calls("UnreservePod") == 0
+
+//@ func (*Plugin).Unreserve [C03]
+//@   requires g != nil && p != nil && mgrsOK(g)
+//@   assert before call UnreservePod: #release: $recv == mgrOf(g, p) && $arg0 == quotaNameOf(g, p) && $arg1 == p
+//@   ensures #exactlyonce: quotaNameOf(g, p) != "" && old(mgrOf(g, p)) != nil ==> calls("UnreservePod") == 1
+//@   ensures #none: quotaNameOf(g, p) == "" || old(mgrOf(g, p)) == nil ==> calls("UnreservePod") == 0
+//@   ensures #never: calls("ReservePod") == 0
